@@ -108,6 +108,24 @@ Theorem C07_clock_read_every_10000_ticks :
 Proof. exact thr_ok_step. Qed.
 Print Assumptions C07_clock_read_every_10000_ticks.
 
+(* "when it ends, everything it consumed is charged to the parent" also when the charge itself terminates the parent
+   by its time limit: the CPU of a request is recorded before the clock is looked at, and PopContext charges the memory
+   before the CPU. *)
+Theorem C07_time_kill_keeps_cpu :
+  forall now amt c c' l, requireCPU now amt c = RTerm c' (TTime l) ->
+  cpu (used c') = u64 (cpu (used c) + amt) /\ mem (used c') = mem (used c).
+Proof. exact requireCPU_time_kill_keeps_cpu. Qed.
+Print Assumptions C07_time_kill_keeps_cpu.
+
+Theorem C07_pop_time_kill_keeps_charge :
+  forall now c p rest p' l,
+  pop now (mkMgr c (p :: rest)) = MTerm (mkMgr p' rest) (TTime l) ->
+  (exists p1, requireMem (mem (used c)) p = ROk p1 /\
+     ((cpu (used p') = u64 (cpu (used p1) + cpu (used c)) /\ mem (used p') = mem (used p1)) \/
+      (exists p2, requireCPU now (cpu (used c)) p1 = ROk p2 /\ cpu (used p') = cpu (used p2) /\ mem (used p') = mem (used p2)))).
+Proof. exact pop_time_kill_keeps_charge. Qed.
+Print Assumptions C07_pop_time_kill_keeps_charge.
+
 Theorem C07_due_iff :
   forall c, due c = true <->
   (soft_stop c = true \/ atLimit (cpu (used c)) (cpu (soft c)) = true
